@@ -33,4 +33,4 @@ Deliver, for change k = {start}..{last}, these files in /tmp/seedwt/{pid}/_seed/
    patch.diff   — `git diff` of the source change only (must apply with `git apply` to a clean checkout of this worktree's HEAD)
    demo_test.go — the demonstration test (state at the top of the file which directory it must be copied into and the exact `go test -run` command)
    notes.md     — which clause of the property it breaks, what it needs in order to manifest, and the outputs you observed (suite pass with the change; demo fails with / passes without)
-When you have written them, run `git stash -u` or `git checkout -- . && git clean -fd -e _seed` so the worktree's tracked files are back to HEAD (leave only _seed/). Your final message: one paragraph per change (what it does, what it needs to manifest, confirmation of the three runs).""")
+When you have written them, run `git checkout -- . && git clean -fd -e _seed` (do NOT use `git stash`: the stash is shared with other worktrees of this repository) so the worktree's tracked files are back to HEAD (leave only _seed/). Your final message: one paragraph per change (what it does, what it needs to manifest, confirmation of the three runs).""")
